@@ -34,6 +34,9 @@ def check(run):
         run.guard("C05.2.bucket-preservation", cfg, lambda: rule_bucket(run, F, cfg))
         run.guard("C05.3.what-is-optimised", cfg, lambda: rule_what(run, F, cfg))
         run.guard("C05.4.disjunction", cfg, lambda: rule_disjunction(run, F, cfg))
+        from . import C06 as _C06c
+        bc = run.borrow("C06", only=r"optimize|key-is-rule-address|evictors", why="explicit optimisation re-allocates the rules: compiled regexes cached under the old addresses must be dropped, in every build configuration")
+        run.guard("C05.via.C06.3.cache-key-validity", cfg, lambda: _C06c.rule_cache_key(bc, F, cfg))
 
 
 def select_constraints(F):
